@@ -392,3 +392,26 @@ Lemma reads_transparent0 d2u ns s s' ch :
   reads d2u s ns [] = Some (s', ch) ->
   ch = fst (fobj_reads (hs_fobj s) ns) /\ hs_fobj s' = snd (fobj_reads (hs_fobj s) ns).
 Proof. intros H. exact (reads_transparent d2u ns s [] s' ch H). Qed.
+
+(* non-vacuity of the legacy-stream statements: a content of two reads, binary head, CR LF tail -
+   both chunks are handed on, the second one is normalised for the hasher *)
+Example d2u_chunks_nonvacuous :
+  exists s' ch,
+    drive_seq true [512; 600; 512]%Z (init_stream (repeat 128 512 ++ [97; 13; 10]) []) [] = DriveOk s' ch /\
+    ch = [repeat 128 512; [97; 13; 10]] /\ hs_hasher s' = repeat 128 512 ++ [97; 10] /\
+    hs_total_read s' = 514.
+Proof. eexists _, _. vm_compute. repeat split; reflexivity. Qed.
+
+Example hash_file_nonvacuous :
+  exists s' ch, hash_file [s_md5; s_md5_dos2unix] s_md5 [1; 2; 3] = HfOk s_md5 (DriveOk s' ch) /\
+                hs_hasher s' = [1; 2; 3] /\ ch = [[1; 2; 3]].
+Proof. eexists _, _. vm_compute. repeat split; reflexivity. Qed.
+
+Example hash_file_case_variant_refused :
+  hash_file [s_md5; s_md5_dos2unix] [77; 68; 53] [1; 2; 3] = HfNotImplemented.
+Proof. vm_compute. reflexivity. Qed.
+
+Example fobj_md5_plain_nonvacuous :
+  exists s' ch, fobj_md5 [83; 72; 65; 49] 2 [9; 8; 7; 6; 5] [1] = DriveOk s' ch /\
+                ch = [[9]; [8; 7]; [6; 5]] /\ hs_hasher s' = [9; 8; 7; 6; 5] /\ hs_total_read s' = 5.
+Proof. eexists _, _. vm_compute. repeat split; reflexivity. Qed.
